@@ -534,6 +534,33 @@ def state_bfs(acc, qmax, max_nodes=200000):
     return len(seen), complete
 
 
+def check_text(text, acc, default='en'):
+    """Text level (real matcher): a document is rejected *for a grammar reason* exactly when the gherkin.berp automaton, fed the own
+    kinds of its lines, cannot continue - and then the first such error is at the line where the automaton is stuck."""
+    from .. import impl as I
+    from .. import docmodel as M
+    case = {'kind': 'text', 'text': text}
+    acc.n += 1
+    acc.validated += 1
+    ok, stuck, read = M.grammar_reading(text, default)
+    a = I.parse(text, default=default, acc=acc)
+    if a[0] == 'exc':
+        acc.violation('foreign-exception', case, 'parser raised ' + a[1])
+        return
+    grammar_errors = [] if a[0] == 'ok' else [e for e in a[1] if e[3] in ('UnexpectedTokenException', 'UnexpectedEOFException')]
+    other_errors = [] if a[0] == 'ok' else [e for e in a[1] if e[3] not in ('UnexpectedTokenException', 'UnexpectedEOFException')]
+    acc.outcomes['grammar accepts' if ok else 'grammar rejects'] += 1
+    if ok:
+        acc.nontrivial += 1
+        if grammar_errors and not other_errors:
+            acc.violation('language-text', case, 'the line kinds %s are a sentence of the grammar, but the parser reports %s' % (read, grammar_errors[0][2]))
+    else:
+        if a[0] == 'ok':
+            acc.violation('language-text', case, 'the grammar cannot continue at line %d, but the parser accepts the document' % stuck)
+        elif grammar_errors and not other_errors and min(e[0] for e in grammar_errors) != stuck:
+            acc.violation('first-error-line-text', case, 'the grammar is first stuck at line %d, the parser first reports line %d' % (stuck, min(e[0] for e in grammar_errors)))
+
+
 def run(ctx):
     setup()
     acc = ctx.acc
@@ -591,6 +618,9 @@ def run(ctx):
     Q = ctx.pick(2, 3)
     nb, complete = state_bfs(acc, Q)
     ctx.levels.append({'name': 'state-bfs(queue<=%d)' % (Q + 1), 'completed': bool(complete), 'evaluations': acc.counters['bfs_nodes'], 'wall_s': round(_t.time() - t0, 2)})
+    from .. import docspace as DS
+    k_full, k_core = ctx.pick((2, 2), (3, 3))
+    DS.run_levels(ctx, __name__, k_full, k_core)
     L = 5
     Lmax = ctx.pick(5, 7)
     # iterate the bound: all words <= L first (sharded by 2-prefix), then exactly the next length
@@ -619,7 +649,9 @@ def job_exact(prefix, length):
 def replay(case):
     setup()
     acc = Acc()
-    if case.get('kind') == 'kinds':
+    if case.get('kind') == 'text':
+        check_text(case['text'], acc)
+    elif case.get('kind') == 'kinds':
         check_run(case['kinds'], acc)
     else:
         # table-level findings are re-derived by re-running the static / exact parts
